@@ -25,9 +25,20 @@ Record login := { lg_user : str; lg_pass : str }.
     a CONNECT only [fp_kind] is meaningful.  [fp_level_ok]: the CONNECT names the protocol
     level of the listener's decoder (4 for V4, 5 for V5); when it does not, the decoder returns
     [Error::InvalidProtocolLevel] and [Network::read] fails. *)
+(** the CONNECT properties of MQTT 5 that the broker reads ([RemoteLink::new]); [mqtt_connect]
+    binds them to [_props] and never looks at them: admission does not depend on them *)
+Record cprops := {
+  cp_session_expiry : option N; cp_receive_max : option N;
+  cp_max_packet : option N; cp_topic_alias_max : option N }.
+Definition cprops_none : cprops :=
+  {| cp_session_expiry := None; cp_receive_max := None; cp_max_packet := None; cp_topic_alias_max := None |}.
+
 Record first_packet := {
   fp_kind : pkind; fp_level_ok : bool; fp_keep_alive : N; fp_client_id : str;
-  fp_clean : bool; fp_login : option login }.
+  fp_clean : bool; fp_login : option login; fp_props : option cprops }.
+Definition set_fp_props (p : first_packet) (v : option cprops) : first_packet :=
+  {| fp_kind := fp_kind p; fp_level_ok := fp_level_ok p; fp_keep_alive := fp_keep_alive p;
+     fp_client_id := fp_client_id p; fp_clean := fp_clean p; fp_login := fp_login p; fp_props := v |}.
 
 Inductive first_read :=
 | Timeout                 (* connection_timeout_ms elapsed *)
